@@ -244,7 +244,7 @@ def ensure_corr(seed, tier, build):
     work = os.path.join(CACHE, 'work')
     os.makedirs(work, exist_ok=True)
     n_main = 320 if tier == 'quick' else 2400
-    n_twin = 112 if tier == 'quick' else 640
+    n_twin = 168 if tier == 'quick' else 640
     n_wrap = 64 if tier == 'quick' else 480
     res = {'seed': seed, 'tier': tier, 'disagreements': [], 'violations': [], 'stats': {}, 'samples': [], 'errors': []}
     corp = corpus_histories()
